@@ -536,8 +536,11 @@ func c05Run(c *core.Ctx, scn stopScn, h *hist.History, l *hist.Layout, tables []
 			c.Inconclusive(fmt.Sprintf("C05 %s: library goroutines still alive, undecided: %s", spec, run.Sig(ob.LeftG)))
 		case run.Returned:
 			// nothing left that could close the socket later: it must be closed now
-			if res.XConn != nil && !res.XConn.Closed() {
-				c.Violation("c05:socket-left-open:"+cls, fmt.Sprintf("%s: no library goroutine is left and the client socket was never closed", spec), wit(nil))
+			for xi, xc := range res.XConns {
+				if !xc.Closed() {
+					c.Violation("c05:socket-left-open:"+cls, fmt.Sprintf("%s: no library goroutine is left and client socket %d of %d of this attempt was never closed", spec, xi+1, len(res.XConns)), wit(nil))
+					break
+				}
 			}
 			c.Cell("quiescent")
 		}
